@@ -680,9 +680,10 @@ type SweepDecl struct {
 }
 
 type TypeInv struct {
-	Type   string
-	Pkg    string
-	Clause Clause
+	Type     string
+	Pkg      string
+	Clause   Clause
+	ReadOnly bool // recvreq: a precondition only
 }
 
 func newContractSet() *ContractSet {
@@ -707,7 +708,7 @@ func (cs *ContractSet) parseContractLines(file, pkgPath string, lines []string, 
 		line int
 	}
 	var stmts []stmt
-	top := map[string]bool{"func": true, "spec": true, "axiom": true, "sort": true, "opaque": true, "alias": true, "lemma": true, "sweep": true, "typeinv": true, "valinv": true, "frameclean": true, "noleak": true, "frameshallow": true}
+	top := map[string]bool{"func": true, "spec": true, "axiom": true, "sort": true, "opaque": true, "alias": true, "lemma": true, "sweep": true, "typeinv": true, "valinv": true, "frameclean": true, "noleak": true, "frameshallow": true, "recvreq": true}
 	for i, ln := range lines {
 		t := strings.TrimSpace(ln)
 		if t == "" || strings.HasPrefix(t, "//") {
@@ -830,14 +831,16 @@ func (cs *ContractSet) parseContractLines(file, pkgPath string, lines []string, 
 			}
 			cs.FrameDecls = append(cs.FrameDecls, FrameDecl{Prop: fs[0], Pkg: pkgPath, Funcs: fns, NoLeak: word == "noleak", Shallow: word == "frameshallow"})
 			cur = nil
-		case "typeinv":
+		case "typeinv", "recvreq":
 			// typeinv <Type> <expr over self>: required and ensured by every method of Type
+			// recvreq <Type> <expr over self>: only required (methods that read their receiver:
+			// a well-formedness condition of an object that is never modified after construction)
 			tn, ex := splitWord(rest)
 			e, err := parseContractExpr(ex)
 			if err != nil {
 				return fmt.Errorf("%s:%d: %v", file, s.line, err)
 			}
-			cs.TypeInvs = append(cs.TypeInvs, TypeInv{Type: strings.TrimPrefix(tn, "*"), Pkg: pkgPath, Clause: Clause{Kind: "typeinv", Name: "typeinv", Src: ex, Expr: e, File: file, Line: s.line}})
+			cs.TypeInvs = append(cs.TypeInvs, TypeInv{Type: strings.TrimPrefix(tn, "*"), Pkg: pkgPath, ReadOnly: word == "recvreq", Clause: Clause{Kind: "typeinv", Name: word, Src: ex, Expr: e, File: file, Line: s.line}})
 			cur = nil
 		case "valinv":
 			// valinv <Type> <expr over self>: representation invariant of every
